@@ -302,7 +302,12 @@ func c18Run(c fw.Case) fw.Verdict {
 	}{
 		{"write", func() error { _, err := ApplyOp(bg, sT, honestOp(target.Type, 9000)); _ = err; return nil }},
 		{"read", func() error { _ = ViewOf(target.Type, sT); return nil }},
-		{"load", func() error { ctx, cancel := context.WithTimeout(bg, 5*time.Second); defer cancel(); _ = sT.Load(ctx, -1); return nil }},
+		{"load", func() error {
+			ctx, cancel := context.WithTimeout(bg, 5*time.Second)
+			defer cancel()
+			_ = sT.Load(ctx, -1)
+			return nil
+		}},
 		{"sync", func() error {
 			ctx, cancel := context.WithTimeout(bg, 5*time.Second)
 			defer cancel()
